@@ -51,6 +51,21 @@ func RunPlan(r *mc.Run, prop string, plan []Search) {
 		var infoSamples []string
 		st := mc.ReplayBFS(mc.BFSConfig{
 			Tag: job.Tag(), NumOps: len(alpha), MaxDepth: s.Depth, Pool: pool, OnViol: r.OnViol, Stop: r.Expired,
+			// a recipe that needs a certificate no honest committee would sign (separate signature class) is
+			// explored as the last or second-to-last block of a path only, so that its class does not
+			// spread over the rest of the search
+			OpsFor: func(path []int, _ string) []int {
+				for i, o := range path {
+					if RecipeClass(alpha[o].Name) != "" && i < len(path)-1 {
+						return nil
+					}
+				}
+				ops := make([]int, len(alpha))
+				for i := range ops {
+					ops[i] = i
+				}
+				return ops
+			},
 			OnState: func(path []int, res *mc.ExecResult) {
 				u[res.Key] = true
 				if len(path) == s.Depth && len(infoSamples) < 2 && strings.Contains(res.Info, "slash") {
